@@ -57,7 +57,20 @@ type Summary struct {
 	// whose success indicator says "ok" (nil error / true): what a validation helper such as
 	// `func checkLen(data []byte, n int) error` establishes for its caller on the err == nil branch.
 	OKFacts []*ParamLin
+	// RelFacts: Sign*result_j + PL(params) >= 0 on every return (value of an integer result, length of a sequence
+	// result), e.g. "the returned index is below the column count it was given".
+	RelFacts []RelFact
+	// ElemLen: result index -> length of every element of a slice-of-slices result, over the parameters
+	ElemLen map[int]*ParamLin
 }
+
+type RelFact struct {
+	Res  int
+	Sign int64
+	PL   *ParamLin
+}
+
+func (r RelFact) equal(o RelFact) bool { return r.Res == o.Res && r.Sign == o.Sign && r.PL.equal(o.PL) }
 
 // succIndex: the error result, else a trailing bool result of a multi-result function (`v, ok := f()`).
 func succIndex(sig *types.Signature) (int, bool) {
@@ -185,6 +198,34 @@ func (e *Engine) Summarize(f *ssa.Function) *Summary {
 		}
 	})
 	for j := 0; j < nres; j++ {
+		if t := f.Signature.Results().At(j).Type(); isSliceOfSeq(t) && a.elemsStable(t) {
+			var pl *ParamLin
+			good, some := true, false
+			for _, r := range rets {
+				er := a.elemLenOf(r.r.Results[j], map[ssa.Value]bool{})
+				if !er.ok {
+					good = false
+					break
+				}
+				if er.any {
+					continue
+				}
+				q := a.toParamLin(er.l)
+				if q == nil || (some && !pl.equal(q)) {
+					good = false
+					break
+				}
+				pl, some = q, true
+			}
+			if good && some {
+				if s.ElemLen == nil {
+					s.ElemLen = map[int]*ParamLin{}
+				}
+				s.ElemLen[j] = pl
+			}
+		}
+	}
+	for j := 0; j < nres; j++ {
 		rs := &s.Res[j]
 		t := f.Signature.Results().At(j).Type()
 		_, _, isInt := e.intInfo(t)
@@ -195,6 +236,43 @@ func (e *Engine) Summarize(f *ssa.Function) *Summary {
 					return a.Lin(r.r.Results[j])
 				}
 				return a.LenOf(r.r.Results[j])
+			}
+			// relations between the result and one parameter
+			for i, p := range f.Params {
+				var pl Lin
+				if _, _, ok := e.intInfo(p.Type()); ok {
+					pl = a.Lin(p)
+				} else if isSeq(p.Type()) {
+					pl = a.LenOf(p)
+				} else {
+					continue
+				}
+				_ = i
+				for _, cand := range []struct {
+					sign int64
+					c    int64
+				}{{-1, -1}, {-1, 0}, {1, 0}} {
+					all := true
+					var g0 Lin
+					for k, r := range rets {
+						// sign*res + (-sign)*param + c >= 0
+						g := Add(Scale(val(r), cand.sign), pl, -cand.sign).plus(cand.c)
+						if k == 0 {
+							g0 = g
+						}
+						if len(g.t) == 0 || !a.Entails(r.b, g) {
+							all = false
+							break
+						}
+					}
+					_ = g0
+					if all {
+						if ppl := a.toParamLin(Scale(pl, -cand.sign).plus(cand.c)); ppl != nil {
+							s.RelFacts = append(s.RelFacts, RelFact{Res: j, Sign: cand.sign, PL: ppl})
+							break
+						}
+					}
+				}
 			}
 			// candidate constant bounds: the constants returned somewhere, 0 and 1
 			var consts []int64
@@ -514,6 +592,7 @@ func (a *FuncAn) callResult(v ssa.Value, call *ssa.Call, idx int, single bool) L
 	at := l.t[0].a
 	if !a.inited2[at] {
 		a.inited2[at] = true
+		a.relLemmas(sums, call, idx, l)
 		a.countLemma(call, l)
 		if hasLo {
 			a.bounds(at, &lo, nil)
@@ -539,6 +618,34 @@ func (a *FuncAn) callResult(v ssa.Value, call *ssa.Call, idx int, single bool) L
 		}
 	}
 	return l
+}
+
+// relLemmas releases the result/parameter relations every possible callee guarantees.
+func (a *FuncAn) relLemmas(sums []*Summary, call *ssa.Call, idx int, l Lin) {
+	if len(sums) == 0 {
+		return
+	}
+	for _, rf := range sums[0].RelFacts {
+		if rf.Res != idx {
+			continue
+		}
+		all := true
+		for _, sm := range sums[1:] {
+			found := false
+			for _, q := range sm.RelFacts {
+				if rf.equal(q) {
+					found = true
+				}
+			}
+			all = all && found
+		}
+		if !all {
+			continue
+		}
+		if inst, ok := a.instantiate(rf.PL, call); ok {
+			a.lemma(Add(Scale(l, rf.Sign), inst, 1))
+		}
+	}
 }
 
 // callLen: the length of sequence result idx of a call.
@@ -602,6 +709,7 @@ func (a *FuncAn) callLen(call *ssa.Call, idx int) (Lin, bool) {
 	at := l.t[0].a
 	if !a.inited2[at] {
 		a.inited2[at] = true
+		a.relLemmas(sums, call, idx, l)
 		if hasLo && lo > 0 {
 			a.bounds(at, &lo, nil)
 		}
